@@ -38,7 +38,11 @@ def run_cli(args, stdin=None, cwd=None):
 
 
 def bal_json(case):
-    return {a: {c: int(v) for c, v in m.items()} for a, m in case.get("balances", {}).items()}
+    out = {a: {c: int(v) for c, v in m.items()} for a, m in case.get("balances", {}).items()}
+    for a, cs in (case.get("nilBalances") or {}).items():
+        for c in cs:
+            out.setdefault(a, {}).setdefault(c, None)         # `null`: decoded as a nil amount
+    return out
 
 
 def run(chk):
